@@ -49,8 +49,19 @@ Verdict(c) ==
      IF c.out # "ok" THEN (IF c.mayraise THEN "ok" ELSE "Raised")
      ELSE IF c.obs.shape # c.exp.shape THEN "ResultShape"
      ELSE IF ~SeqClose(c.obs.flat, c.exp.flat) THEN "SameAsTorchOnDense"
+     ELSE IF c.obs.dt # c.exp.dt THEN "SameDtypeAsTorchOnDense"
      ELSE IF c.hasst /\ StructClause(c.rb, c.obs) # "ok" THEN StructClause(c.rb, c.obs)
      ELSE "ok"
+  ELSE IF c.kind = "project" THEN
+     \* t.project(paxes, vaxes): a tensor over the target's physical axes with  result[q] = dense(t)[ virtual index of q under the target's vaxes ]
+     IF c.out # "ok" THEN "Raised"
+     ELSE LET d == PtDense(c.src)  tg == c.target
+              exp == [pos \in 1..BNumel(PtPShape(tg)) |->
+                         LET q == CHOOSE q \in PtPhysTuples(tg) : BFlat(PtPShape(tg), q) = pos IN d[PtVPos(tg, q)]]
+          IN IF c.obs.shape # PtPShape(tg) THEN "ResultShape"
+             ELSE IF PtVShape(tg) # PtVShape(c.src) THEN "GeneratorGaveWrongShape"
+             ELSE IF ~SeqClose(c.obs.flat, exp) THEN "ProjectExtractsTheViewItDescribes"
+             ELSE "ok"
   ELSE IF c.kind = "reshape" THEN
      IF c.out = "ok" THEN
         (IF c.obs.shape # c.target THEN "ResultShape"
